@@ -194,7 +194,10 @@ def items(tier, seed):
     yield ('call', i)
   for r in REGISTRIES:
     yield ('registry', r)
-  for b in ('eval', 'locals', 'globals', 'super', 'eval_hidden', 'super_inherited', 'super_chain'):
+  for b in ('eval', 'locals', 'globals', 'super', 'eval_hidden', 'super_inherited', 'super_chain',
+            # explicit namespaces (given, empty, None) must be used exactly as the builtin uses them; an explicit
+            # two-argument super followed by a zero-argument one (the call wrapper's caches sit in between)
+            'eval_globals', 'eval_both', 'eval_empty', 'eval_none', 'eval_missing', 'super_both'):
     for depth in range(0, 4):
       for ctx in itertools.product(('if', 'for', 'while'), repeat=depth):
         yield ('ctx', b, ctx)
@@ -386,7 +389,7 @@ def ctx_source(b, ctx, pid):
     k[0] += 1
     return k[0]
   ind = 1
-  if b in ('super', 'super_inherited', 'super_chain'):
+  if b in ('super', 'super_inherited', 'super_chain', 'super_both'):
     L.append('class Base(object):')
     L.append('    def m(self, zo, d):')
     L.append('        return 100')
@@ -416,6 +419,19 @@ def ctx_source(b, ctx, pid):
     L.append(pad + "r = r * 10 + locals()['x'] + x * 0")
   elif b == 'globals':
     L.append(pad + "r = r * 10 + globals()['GV']")
+  elif b == 'eval_globals':
+    L.append(pad + "r = r * 10 + eval('x + 1', {'x': 40}) + x * 0")
+  elif b == 'eval_both':
+    L.append(pad + "r = r * 10 + eval('x + y', {'x': 40, 'y': 1}, {'y': 2}) + x * 0")
+  elif b == 'eval_empty':
+    L.append(pad + "r = r * 10 + eval('x + 1', {'x': 40}, {}) + x * 0")
+  elif b == 'eval_none':
+    L.append(pad + "r = r * 10 + eval('x + 1', None, None) + eval('x + GV', None, {'x': 50}) + x * 0")
+  elif b == 'eval_missing':
+    L.append(pad + "r = r * 10 + eval('x + 1', {}, {}) + x * 0")
+  elif b == 'super_both':
+    L.append(pad + 'r = r * 10 + super(Child, self).m(zo, d)')
+    L.append(pad + 'r = r * 10 + super().m(zo, d)')
   elif b in ('super', 'super_inherited', 'super_chain'):
     L.append(pad + 'r = r * 10 + super().m(zo, d)')
   if 'while' in ctx:
@@ -433,7 +449,7 @@ def ctx_source(b, ctx, pid):
     L.append('    def m(self, zo, d):')
     L.append('        return (7, super().m(zo, d))')
     L.append('_obj = Leaf()')
-  elif b == 'super':
+  elif b in ('super', 'super_both'):
     L.append('_obj = Child()')
   if b.startswith('super'):
     L.append('def f(zo, d):')
